@@ -1203,6 +1203,7 @@ class Canon:
     def __init__(self, prog):
         self.prog = prog
         self.cache: dict = {}
+        self._keepalive: list = []
         norm.FINAL_ATTRS.clear()
         norm.FINAL_ATTRS.update(self._final_attrs())
 
@@ -1500,7 +1501,7 @@ class Canon:
         """accessors=True: read-only one-line methods called on typed parameters / locals are seen through as well
         (`hugr.num_out_ports(n)` is `hugr[n]._num_outs`): for rules that compare what is read, not how it is spelled"""
         key = (id(fn), tuple(sorted(inline)), tuple(sorted(keep)), subst, accessors)
-        if key in self.cache:
+        if key in self.cache and fn.name != "_module_level_":       # (synthetic functions are short-lived: their id can be reused)
             return self.cache[key]
         b = [copy.deepcopy(s) for s in real_body(fn)]
         b = strip_annotations(b)
@@ -1549,7 +1550,9 @@ class Canon:
         b = expr_norm(b)
         for s in b:
             ast.fix_missing_locations(s)
-        self.cache[key] = b
+        if fn.name != "_module_level_":
+            self.cache[key] = b
+            self._keepalive.append(fn)      # ids are cache keys: the function objects must outlive the cache
         return b
 
     def module_expr(self, module, expr: ast.expr, **kw) -> ast.expr:
